@@ -272,9 +272,12 @@ def state_docs(rng, n):
                    '<feTurbulence baseFrequency="0.0%d" numOctaves="2" seed="%d" result="n"/>'
                    '<feDisplacementMap in="b" in2="n" scale="%d" xChannelSelector="R" yChannelSelector="G" result="d"/>'
                    '<feMerge><feMergeNode in="d"/></feMerge></filter>' % (w, w, rng.below(1 << 24), 1 + rng.below(6), 3 + rng.below(6), rng.below(50), sc))
-            docs.append('<svg %s width="%d" height="%d">%s<circle cx="%d" cy="%d" r="%d" fill="#%06x" filter="url(#f)"/>'
-                        '<rect x="3" y="3" width="%d" height="%d" fill="#%06x" filter="url(#f)"/></svg>'
-                        % (NS, w, w, flt, w // 2, w // 2, w // 3, rng.below(1 << 24), w // 2, w // 3, rng.below(1 << 24)))
+            # mostly ONE filtered element: a second application of the same filter in the same render would already see
+            # the left-overs of the first one in a fresh thread too, and the baseline would contain the effect
+            second = ('<rect x="3" y="3" width="%d" height="%d" fill="#%06x" filter="url(#f)"/>' % (w // 2, w // 3, rng.below(1 << 24))
+                      if rng.below(4) == 0 else '<rect x="3" y="3" width="%d" height="%d" fill="#%06x"/>' % (w // 2, w // 3, rng.below(1 << 24)))
+            docs.append('<svg %s width="%d" height="%d">%s<circle cx="%d" cy="%d" r="%d" fill="#%06x" filter="url(#f)"/>%s</svg>'
+                        % (NS, w, w, flt, w // 2, w // 2, w // 3, rng.below(1 << 24), second))
         elif kind == 2:
             # small-deviation blurs (IIR kernel with a working buffer), several sizes
             parts = ''.join('<filter id="b%d"><feGaussianBlur stdDeviation="%d.%d %d.%d"/></filter>'
@@ -617,6 +620,7 @@ def run(ctx):
     pool = [it for it in items if any(x in it[1] for x in ('/filters/', '/pattern/', '/masking/', '/painting/'))] or items
     hsel = ctx.rng.sample(pool, min(40 if not deep else 500, len(pool)))
     nhist = history_oracle(ctx, binp, sd + hsel, 10 if not deep else 12)
+    ctx.log("e2e-C06 history search: %d documents, %s comparisons" % (len(sd) + len(hsel), nhist))
 
     # (d') the shipped binaries in fresh processes with several font sources
     cli_fresh_oracle(ctx, 6 if not deep else 10)
